@@ -1117,6 +1117,15 @@ fn gen_ext(rng: &mut Rng, depth: usize) -> Value {
             json!({"type": "object", "properties": {"p": gen_ext(rng, depth - 1), "q": gen_ext(rng, depth - 1)}, "required": ["p", "q"],
                    "additionalProperties": {"type": "boolean"}, "minProperties": 2, "maxProperties": rng.range(2, 4)})
         }
+        3 if rng.chance(1, 3) => {
+            // a required name that is not declared: governed by additionalProperties (or by nothing)
+            let addl = match rng.below(3) { 0 => json!({"type": "boolean"}), 1 => json!({"type": "integer", "minimum": 0, "maximum": 9}), _ => json!(true) };
+            if rng.chance(1, 2) {
+                json!({"type": "object", "properties": {"a": gen_ext(rng, depth - 1)}, "required": ["z"], "additionalProperties": addl})
+            } else {
+                json!({"type": "object", "properties": {"a": {"type": "null"}}, "required": ["a", "z"], "additionalProperties": addl, "maxProperties": 3})
+            }
+        }
         3 => json!({"type": "object", "properties": {"a": gen_ext(rng, depth - 1), "b": gen_ext(rng, depth - 1), "c": {"type": "null"}},
                     "required": if rng.chance(1, 2) { json!(["b"]) } else { json!(["a", "c"]) }, "additionalProperties": false}),
         _ => json!({"type": "array", "prefixItems": [gen_ext(rng, depth - 1), {"type": "boolean"}], "items": false, "minItems": rng.below(3)}),
